@@ -432,6 +432,12 @@ func (v *ADTSImpl) Decode(data []byte) (raw, left []byte, err error) {
 	v.asc.SampleRate = SampleRateIndex(samplingFrequencyIndex)
 
 	nbRaw := int(frameLength - 7)
+	if protectionAbsent == 0 {
+		// The aac_frame_length includes the 2 bytes adts_error_check.
+		if nbRaw -= 2; nbRaw < 0 {
+			return nil, nil, errors.Errorf("invalid frame length %v", frameLength)
+		}
+	}
 	if len(p) < nbRaw {
 		return nil, nil, errors.Errorf("requires %v but only %v bytes", nbRaw, len(p))
 	}
